@@ -304,7 +304,7 @@ inline std::vector<std::uint8_t> DnsMessage::encodeName(const std::string &name)
 
   encoded.push_back(0); // Null terminator
 
-  if (encoded.size() > constants::DNS_MAX_NAME_SIZE)
+  if (encoded.size() > constants::DNS_MAX_NAME_WIRE_SIZE)
   {
     throw DnsParseException("Domain name too long: " + name);
   }
@@ -632,10 +632,11 @@ DnsMessage::decodeNameWithLoopDetection(const std::uint8_t *data, std::size_t of
     offset += length + 1;
 
     totalLength += length + 1;
-    if (totalLength > constants::DNS_MAX_NAME_SIZE)
+    // The root octet that terminates the name counts towards the wire limit as well
+    if (totalLength + 1 > constants::DNS_MAX_NAME_WIRE_SIZE)
     {
-      throw DnsParseException("Domain name too long: " + std::to_string(totalLength) + " (max " +
-                              std::to_string(constants::DNS_MAX_NAME_SIZE) + ")");
+      throw DnsParseException("Domain name too long: " + std::to_string(totalLength + 1) +
+                              " (max " + std::to_string(constants::DNS_MAX_NAME_WIRE_SIZE) + ")");
     }
   }
 
